@@ -354,6 +354,21 @@ let readd2_class () =
   let show evs = let s = sbase (srun false evs) in Printf.sprintf "managed=%s live=%d" (b01 (managed s)) (int_of_nat (supervisors s)) in
   if show a = show b then print_endline (show a) else print_endline ("!orders-differ " ^ show a ^ " / " ^ show b)
 
+(* addr <kind> <admin> <state>: Driver.UpdateDevice with another address, by kind of change (Driver/AddrUpdate.v, the tree's
+   flags).  Spellings: 1 = the old address; the new one is 2 except for kinds whose String() equals the old one's (same,
+   mapped: net.TCPAddr prints an IPv4-mapped address in its IPv4 form).  ep: port / ip4 / name reach another endpoint,
+   zone keeps the endpoint class, same / mapped keep endpoint and spelling.
+   answer: stored=1 iff the next attempt dials the address given; next=new (a redial is due: the connection was closed, or
+   the device is / starts dialling) or next=any (nothing forces an attempt); reached=1 *)
+let addr_class kind admin state =
+  let old_sp = n_of_int 1 in
+  let new_sp = if kind = "same" || kind = "mapped" then n_of_int 1 else n_of_int 2 in
+  let ep x = if kind = "zone" then N0 else x in
+  let s0 = { managed_a = (state <> "new"); stored = old_sp; bounces = O } in
+  let s1 = update_device aflags_tree ep s0 new_sp (admin = "locked") in
+  let redial = int_of_nat (bounces s1) > 0 || state <> "conn" || kind = "zone" in
+  Printf.printf "stored=%s next=%s reached=1\n" (b01 (next_dial s1 = new_sp && managed_a s1)) (if redial then "new" else "any")
+
 let () =
   try
     while true do
@@ -367,6 +382,7 @@ let () =
        | ["race"; n; _] -> race_class (int_of_string n)
        | ["readd"; _; _] -> readd_class ()
        | ["readd2"; _; _] -> readd2_class ()
+       | ["addr"; kind; admin; state] -> addr_class kind admin state
        | "reg" :: v :: toks ->
          (try let (s, m) = reg_run (rflags_of v) (List.map rev_of_tok toks) in
             Printf.printf "managed=%s live=%d maxlive=%d created=%d\n" (b01 (managed s)) (int_of_nat (supervisors s)) m (int_of_nat (next s))
